@@ -114,6 +114,24 @@ macro_rules! frost_suite {
                         None => Ok("N".into()),
                     }
                 }
+                // as "sign", but the commitment list is built by the caller entry by entry (Commitment::decode on each
+                // chunk), so lists that decode_list would reject (unordered, duplicates, a single entry) reach sign()
+                "sign_raw" => {
+                    let sh = dec!(SignerPrivateKeyShare, 0);
+                    let nonce = dec!(Nonce, 1);
+                    let comm = dec!(Commitment, 2);
+                    let msg = bytes(arg(a, 3)?)?;
+                    let lb = bytes(arg(a, 4)?)?;
+                    if lb.len() % Commitment::ENC_LEN != 0 { return Ok("NODEC 4".into()); }
+                    let mut cl = Vec::new();
+                    for ch in lb.chunks(Commitment::ENC_LEN) {
+                        match Commitment::decode(ch) { Some(x) => cl.push(x), None => return Ok("NODEC 4".into()) }
+                    }
+                    match sh.sign(nonce, comm, &msg, &cl) {
+                        Some(s) => Ok(format!("S {}", ohex(&s.encode()))),
+                        None => Ok("N".into()),
+                    }
+                }
                 "verify_share" => {
                     let spk = dec!(SignerPublicKey, 0);
                     let ss = dec!(SignatureShare, 1);
